@@ -18,7 +18,7 @@ import (
 	"time"
 )
 
-func binPath(variant string) string { return filepath.Join(VerifRoot(), "bin", "vw-"+variant) }
+func binPath(variant string) string { return filepath.Join(OutRoot(), "bin", "vw-"+variant) }
 
 // BuildVariant builds the worker binary for a variant from /repo's working tree.
 func BuildVariant(variant string) error {
@@ -27,6 +27,9 @@ func BuildVariant(variant string) error {
 		goBin = "go"
 	}
 	args := []string{"build", "-tags", "verif", "-o", binPath(variant)}
+	if mf := os.Getenv("VERIF_MODFILE"); mf != "" {
+		args = append(args, "-modfile="+mf)
+	}
 	switch variant {
 	case "plain":
 	case "checkptr":
@@ -175,12 +178,12 @@ func Orchestrate(propID, tier string, seed int64, replay string) int {
 	if replay != "" {
 		return replayWitness(p, replay)
 	}
-	if old, _ := filepath.Glob(filepath.Join(VerifRoot(), "replay", propID+"-*.json")); len(old) > 0 {
+	if old, _ := filepath.Glob(filepath.Join(OutRoot(), "replay", propID+"-*.json")); len(old) > 0 {
 		for _, f := range old {
 			os.Remove(f)
 		}
 	}
-	dir := filepath.Join(VerifRoot(), ".work", fmt.Sprintf("%s.%d", propID, os.Getpid()))
+	dir := filepath.Join(OutRoot(), ".work", fmt.Sprintf("%s.%d", propID, os.Getpid()))
 	os.MkdirAll(dir, 0o755)
 	defer os.RemoveAll(dir)
 
@@ -348,7 +351,7 @@ func Orchestrate(propID, tier string, seed int64, replay string) int {
 		}
 	}
 	// witnesses
-	os.MkdirAll(filepath.Join(VerifRoot(), "replay"), 0o755)
+	os.MkdirAll(filepath.Join(OutRoot(), "replay"), 0o755)
 	printed := 0
 	seen := map[string]bool{}
 	for _, v := range agg.Violations {
@@ -358,7 +361,7 @@ func Orchestrate(propID, tier string, seed int64, replay string) int {
 		}
 		seen[key] = true
 		name := fmt.Sprintf("%s-%d-%s-%s-%s.json", p.ID, seed, tier, v.Mode, sanitize(v.Case+"-"+v.Clause))
-		path := filepath.Join(VerifRoot(), "replay", name)
+		path := filepath.Join(OutRoot(), "replay", name)
 		b, _ := json.MarshalIndent(v, "", " ")
 		os.WriteFile(path, b, 0o644)
 		if printed < 12 {
@@ -401,8 +404,8 @@ func Orchestrate(propID, tier string, seed int64, replay string) int {
 		ev["assumptions"] = []string{}
 	}
 	eb, _ := json.MarshalIndent(ev, "", " ")
-	os.MkdirAll(filepath.Join(VerifRoot(), "evidence"), 0o755)
-	os.WriteFile(filepath.Join(VerifRoot(), "evidence", p.ID+".json"), eb, 0o644)
+	os.MkdirAll(filepath.Join(OutRoot(), "evidence"), 0o755)
+	os.WriteFile(filepath.Join(OutRoot(), "evidence", p.ID+".json"), eb, 0o644)
 
 	fmt.Printf("%s tier=%s seed=%d: evaluations=%d distinct=%d violations=%d inconclusive=%d wall=%.1fs\n", p.ID, tier, seed,
 		agg.Evaluations, len(agg.Shapes), nviol, len(agg.Inconclusive), time.Since(start).Seconds())
